@@ -218,3 +218,72 @@ Example C17_trunc_error_example :
   | Err _ => False
   end.
 Proof. exact trunc_example. Qed.
+
+(* ------------------------------------------------------------------------------------------------------------
+   The WHOLE-TENSOR error of tt_to_qtt over several cores, at the reals (Proofs/QttErrTotP.v, Proofs/L2RP.v).
+     Y = [G_1 .. G_d], boundary ranks 1, every mode size 2^(q+1); core j is converted on its own with the routine
+     msvd2 j;  cores_all msvd2 H 0 Y = H (msvd2 j) G_j for every j;  core_hyp P q sv G = the hypotheses of
+     C17_core_tt_to_qtt_error_R for the core G: mode size 2^(q+1), 0 < cr1 G, P at every call the run on G makes.
+     cnorm G = Frobenius norm of the core;  c = sqrt(q+1) e = the per-core bound;
+     pbound c [] = 0,  pbound c (G :: Y') = c * cprod Y' + (cnorm G + c) * pbound c Y',  cprod = product of the cnorm's:
+        pbound c Y = sum_j c * prod_{l<j} (|G_l| + c) * prod_{l>j} |G_l|
+     sbound c Y (same recursion with cprodc = product of the (cnorm + c)) = sum_j c * prod_{l<>j} (|G_l| + c)
+     is the symmetric weaker form used by the numerical search.
+   Proof: replace the cores one at a time (telescoping), Cauchy-Schwarz at each bond, Minkowski for the sum. *)
+From TV Require Import Proofs.L2RP Proofs.QttErrTotP Proofs.QttErrTotEx.
+
+Theorem C17_tt_to_qtt_error_R : forall (msvd2 : nat -> nat -> mat R -> mat R * mat R) q (e : R) (Y Z : list (core R)),
+  (0 <= e)%R -> chain 1 Y 1 ->
+  cores_all msvd2 (core_hyp (fun M U V => fact_ok OR M U V /\ (res2 OR M U V <= e * e)%R) q) 0 Y ->
+  tt_to_qtt OR msvd2 Y = Ok Z ->
+  length Z = length Y * S q /\ chain 1 Z 1 /\ Forall (fun Q => cn Q = 2) Z /\
+  (sqrt (msum OR (shape Y) (fun idx =>
+           (get OR Y idx - get OR Z (flat_map (bits_le (S q)) idx)) *
+           (get OR Y idx - get OR Z (flat_map (bits_le (S q)) idx)))) <= pbound (sqrt (INR (S q)) * e) Y)%R /\
+  (pbound (sqrt (INR (S q)) * e) Y <= sbound (sqrt (INR (S q)) * e) Y)%R.
+Proof. exact tt_to_qtt_err_R. Qed.
+(* ... the same under the projection contract trunc_ok *)
+Theorem C17_tt_to_qtt_error_proj_R : forall (msvd2 : nat -> nat -> mat R -> mat R * mat R) q (e : R) (Y Z : list (core R)),
+  (0 <= e)%R -> chain 1 Y 1 ->
+  cores_all msvd2 (core_hyp (fun M U V => trunc_ok OR M U V /\ (res2 OR M U V <= e * e)%R) q) 0 Y ->
+  tt_to_qtt OR msvd2 Y = Ok Z ->
+  (sqrt (msum OR (shape Y) (fun idx =>
+           (get OR Y idx - get OR Z (flat_map (bits_le (S q)) idx)) *
+           (get OR Y idx - get OR Z (flat_map (bits_le (S q)) idx)))) <= pbound (sqrt (INR (S q)) * e) Y)%R.
+Proof. exact tt_to_qtt_err_proj_R. Qed.
+
+(* the perturbation bound behind it, for any two chains whose cores have the same shapes and are pairwise at
+   Frobenius distance <= c (cnear): left rank r, closed on the right *)
+Theorem C17_chain_perturbation : forall (c : R), (0 <= c)%R -> forall Y W : list (core R), Forall2 (cnear c) Y W ->
+  forall r, chain r Y 1 -> chain r W 1 -> (sqrt (td2 r Y W) <= pbound c Y)%R.
+Proof. exact chain_pert. Qed.
+(* sub-multiplicativity of the Frobenius norm along a chain *)
+Theorem C17_chain_norm : forall (Y : list (core R)) r, chain r Y 1 -> (sqrt (tn2 r Y) <= cprod Y)%R.
+Proof. exact tn2_le_cprod. Qed.
+
+(* the MODEL of teneva.matrix_svd on every core (tt_to_qtt(Y, e, r): the same e and r everywhere), for every eigh /
+   argsort routine meeting their contracts, ranks >= 1 and a cap above r1 * n of every core (it never binds):
+   the conversion succeeds and the whole-tensor Frobenius error is <= pbound (sqrt(q+1) e) Y *)
+Theorem C17_tt_to_qtt_error_matrix_svd :
+  forall (eigh : nat -> nat -> mat R -> list R * mat R) (argsort : nat -> nat -> list R -> list nat),
+  (forall k c C, msym C -> eigh_ok C (fst (eigh k c C)) (snd (eigh k c C))) ->
+  (forall k c l, argsort_ok l (argsort k c l)) ->
+  forall q (e : R) (rcap : Z) (Y : list (core R)), (0 <= e)%R -> chain 1 Y 1 ->
+  Forall (fun G => cn G = 2 ^ S q /\ 1 <= cr1 G /\ 1 <= cr2 G /\ (Z.of_nat (cr1 G * cn G) < rcap)%Z) Y ->
+  exists Z, tt_to_qtt OR (fun k c M => matrix_svd OR (eigh k) (argsort k) c M e rcap) Y = Ok Z /\
+    length Z = length Y * S q /\ chain 1 Z 1 /\ Forall (fun Q => cn Q = 2) Z /\
+    (sqrt (msum OR (shape Y) (fun idx =>
+             (get OR Y idx - get OR Z (flat_map (bits_le (S q)) idx)) *
+             (get OR Y idx - get OR Z (flat_map (bits_le (S q)) idx)))) <= pbound (sqrt (INR (S q)) * e) Y)%R /\
+    (pbound (sqrt (INR (S q)) * e) Y <= sbound (sqrt (INR (S q)) * e) Y)%R.
+Proof. exact tt_to_qtt_matrix_svd. Qed.
+
+(* non-vacuity: two cores (1 x 2 x 2, 2 x 2 x 1) over R, projection oracle; core 0 is genuinely truncated (its 2 x 2
+   unfolding is projected on the row (3/5, 4/5), residual 25 = e^2 with e = 5), core 1 is kept; every hypothesis of
+   C17_tt_to_qtt_error_proj_R holds and the conversion returns *)
+Example C17_tt_to_qtt_error_example :
+  chain 1 exY 1 /\
+  cores_all exsvd2 (core_hyp (fun M U V => trunc_ok OR M U V /\ (res2 OR M U V <= 5 * 5)%R) 0) 0 exY /\
+  res2 OR (unfold_rows OR exG1) (fst (exsvd2 0 0 (unfold_rows OR exG1))) (snd (exsvd2 0 0 (unfold_rows OR exG1))) = 25%R /\
+  exists Z, tt_to_qtt OR exsvd2 exY = Ok Z.
+Proof. exact tot_example. Qed.
